@@ -128,6 +128,15 @@ func (s *Sim) describe() []string {
 		}
 		out = append(out, fmt.Sprintf("n%d %s | disk: hs={term %d vote %d commit %d} log=[%d..%d] applied=%d voters=%v outgoing=%v learners=%v",
 			id, st, n.hs.Term, n.hs.Vote, n.hs.Commit, fi, li, n.disk.applied, n.disk.cs.Voters, n.disk.cs.VotersOutgoing, n.disk.cs.Learners))
+		if os.Getenv("RAFTSIM_LOGS") != "" {
+			var b strings.Builder
+			for i := fi; i <= li; i++ {
+				if es, err := n.disk.Entries(i, i+1, 1<<30); err == nil && len(es) == 1 {
+					fmt.Fprintf(&b, " %d:t%d:%04x", i, es[0].Term, entryDigest(&es[0])&0xffff)
+				}
+			}
+			out = append(out, fmt.Sprintf("   n%d log:%s", id, b.String()))
+		}
 	}
 	return out
 }
